@@ -97,6 +97,21 @@ class ProbeGen:
                 path, name, op, "1" if byte == "char" else "0", cur, dn, type_expr))
             self.rows[(path + "." + name, op, byte)] = (type_expr, stmt)
 
+    WRAP = [("plain", "%s"), ("init", "sbepp::cursor_ops::init(%s)"), ("dont_move", "sbepp::cursor_ops::dont_move(%s)"),
+            ("init_dont_move", "sbepp::cursor_ops::init_dont_move(%s)")]
+
+    def view_through_cursor_rows(self, type_expr, byte, path, name):
+        """the view a cursor accessor of a view-typed member yields must be read-only as soon as the enclosing view or the
+        cursor is: one row per wrapper x cursor byte type"""
+        k = self.uid()
+        for wn, wfmt in self.WRAP:
+            for cb, cn in (("char", "1"), ("const char", "0")):
+                dn = "rb_%d_%s_%s" % (k, wn, "m" if cn == "1" else "c")
+                expr = "std::declval<V>().%s(%s)" % (name, wfmt % ("std::declval<sbepp::cursor<%s>&>()" % cb))
+                self.det.append("VRO_RESULT_BYTE(%s, %s)" % (dn, expr))
+                self.body[byte].append('    vro::B("%s.%s", "%s", "%s", "%s", %s<%s>::value);' % (
+                    path, name, wn, "1" if byte == "char" else "0", cn, dn, type_expr))
+
     def lib_rows(self, fn, ops, type_expr, byte, path):
         self.body[byte].append('    vro::%s<%s>("%s");' % (fn, type_expr, path))
         for op in ops:
@@ -125,18 +140,22 @@ class ProbeGen:
             sub = "decltype(std::declval<%s>().%s())" % (type_expr, f.name)
             if enc is not None and enc.kind == "composite":
                 self.composite(enc, sub, byte, path + "." + f.name, "%s::%s" % (tag, f.name))
+                self.view_through_cursor_rows(type_expr, byte, path, f.name)
             elif enc is not None and enc.kind == "type" and enc.is_array():
                 self.lib_rows("probe_array", ARRAY_OPS, sub, byte, path + "." + f.name)
+                self.view_through_cursor_rows(type_expr, byte, path, f.name)
             else:
                 self.member_rows(type_expr, byte, path, f.name, "%s::%s" % (tag, f.name), True)
         for g in lv.groups:
             gt = "decltype(std::declval<%s>().%s())" % (type_expr, g.name)
             self.lib_rows("probe_group", GROUP_OPS, gt, byte, path + "." + g.name)
+            self.view_through_cursor_rows(type_expr, byte, path, g.name)
             self.level(g, "typename %s::value_type" % gt if False else "%s::value_type" % gt, byte, path + "." + g.name + "[]",
                        "%s::%s" % (tag, g.name), False)
         for d in lv.data:
             dt = "decltype(std::declval<%s>().%s())" % (type_expr, d.name)
             self.lib_rows("probe_data", DATA_OPS, dt, byte, path + "." + d.name)
+            self.view_through_cursor_rows(type_expr, byte, path, d.name)
 
     def comp_conversions(self, comp, mexpr, cexpr, path):
         """views nested inside a composite view: composite and array elements, recursively"""
@@ -259,6 +278,25 @@ def main():
                         rep.violation("mutator-missing-on-mutable-view", re.sub(r"det_\d+_", "", op),
                                       "%s/%s: %s %s is not callable although view and cursor are mutable" % (name, cfg, path, op),
                                       {"schema": name, "schema_xml": p.xml, "config": str(cfg), "row": ln})
+            elif parts[0] == "B" and len(parts) == 6:
+                _, path, wrapper, vmut, cmut, res = parts
+                rep.evaluation()
+                rep.count("view_through_cursor_rows")
+                res = int(res)
+                if res == -1:
+                    rep.count("view_through_cursor_not_callable")
+                if vmut == "0" or cmut == "0":
+                    rep.nontrivial(name, path, "view-through-cursor", wrapper, vmut, cmut)
+                    if res == 0:
+                        rep.violation("mutable-view-through-read-only-access", "view-through-cursor/" + wrapper,
+                                      "%s/%s: %s obtained with the %s cursor form yields a view over *mutable* bytes although the %s "
+                                      "is read-only" % (name, cfg, path, wrapper, "enclosing view" if vmut == "0" else "cursor"),
+                                      {"schema": name, "schema_xml": p.xml, "config": str(cfg), "row": ln})
+                elif res != 0:
+                    rep.violation("mutator-missing-on-mutable-view", "view-through-cursor/" + wrapper,
+                                  "%s/%s: %s obtained with the %s cursor form from a mutable view and cursor is %s" % (
+                                      name, cfg, path, wrapper, "not callable" if res == -1 else "read-only"),
+                                  {"schema": name, "schema_xml": p.xml, "config": str(cfg), "row": ln})
             elif parts[0] == "V" and len(parts) == 4:
                 rep.evaluation()
                 rep.count("conversion_rows")
